@@ -744,15 +744,13 @@ class Ref:
                         msgs.append("selected nodes os=%d and os=%d have intersecting cpusets" % (sel[i].os, sel[j].os))
             if not sel:
                 msgs.append("empty default nodeset")
-            # the documented algorithm ("already taken?" meaning: this node is already in the nodeset);
-            # the code tests bit i (position in the os_index-sorted array) instead of nodes[i]->os_index
-            want, coded = default_nodeset_algo(nodes, self.topo.root, False), default_nodeset_algo(nodes, self.topo.root, True)
+            # exact result of the algorithm ("already taken?" tests nodes[i]->os_index since /repo a3b32cd;
+            # default_nodeset_algo(index_quirk=True) is the old behaviour, named in the message if it comes back)
+            want = default_nodeset_algo(nodes, self.topo.root, False)
             if not msgs and s != want:
-                if s == coded:
-                    msgs.append(("os-index-vs-array-index", "second loop skips a node because bit <array index> is set: got %s, "
-                                 "the documented algorithm gives %s" % (fset(s), fset(want))))
-                else:
-                    msgs.append("nodeset %s is neither the documented (%s) nor the coded (%s) result" % (fset(s), fset(want), fset(coded)))
+                old = default_nodeset_algo(nodes, self.topo.root, True)
+                msgs.append(("os-index-vs-array-index" if s == old else "algo",
+                             "got %s, the algorithm gives %s%s" % (fset(s), fset(want), " (array-index test of the second loop is back)" if s == old else "")))
             return msgs
         return Exp(None, check=chk)
 
